@@ -53,9 +53,10 @@ const (
 	progGroup            // P' : every mount(prefix, sub) replaced by group(prefix){sub's items}
 	progFlat             // P'': P' with every group prefix folded into the full path, registered on the root app
 	progRoute            // P''': P' with every group replaced by a Route(prefix) chain: app.Route(a).Route(b).Route(pattern).Get(h)
+	progMountCfg         // P : like P(mounts) but every sub-app is created with the OPPOSITE CaseSensitive/StrictRouting of the parent
 )
 
-var progNames = [...]string{"P(mounts)", "P(mounts, populated after mounting)", "P'(groups)", "P''(full paths)", "P'''(Route chains)"}
+var progNames = [...]string{"P(mounts)", "P(mounts, populated after mounting)", "P'(groups)", "P''(full paths)", "P'''(Route chains)", "P(mounts, sub-apps with another routing config)"}
 
 const maxLeaves = 12
 
@@ -169,7 +170,7 @@ func (e *exec) build(t *tree, c rcfg, prog int, plan map[int]int) (h fasthttp.Re
 	app := fiber.New(fc)
 	id := 0
 	switch prog {
-	case progMount, progMountLate, progGroup:
+	case progMount, progMountLate, progGroup, progMountCfg:
 		var reg func(r fiber.Router, items []*node, subRoot bool)
 		reg = func(r fiber.Router, items []*node, subRoot bool) {
 			for _, n := range items {
@@ -189,6 +190,13 @@ func (e *exec) build(t *tree, c rcfg, prog int, plan map[int]int) (h fasthttp.Re
 					sub := fiber.New(fc)
 					r.Use(n.Prefix, sub)
 					reg(sub, n.Items, true)
+				case prog == progMountCfg:
+					// the parent's configuration governs mounted routes: the sub-app's own must not matter
+					oc := fc
+					oc.CaseSensitive, oc.StrictRouting = !fc.CaseSensitive, !fc.StrictRouting
+					sub := fiber.New(oc)
+					reg(sub, n.Items, true)
+					r.Use(n.Prefix, sub)
 				default:
 					sub := fiber.New(fc)
 					reg(sub, n.Items, true)
